@@ -220,6 +220,10 @@ def _cev(e, env):
             return a >= b
         if isinstance(op, ast.LtE):
             return a <= b
+        if isinstance(op, ast.Is):
+            return a is b
+        if isinstance(op, ast.IsNot):
+            return a is not b
         raise _Stop('compare')
     if isinstance(e, ast.BoolOp):
         res = None
@@ -245,7 +249,14 @@ def _cev(e, env):
     if isinstance(e, ast.Dict):
         return {_cev(k, env): _cev(v, env) for k, v in zip(e.keys, e.values)}
     if isinstance(e, ast.Subscript):
-        return _cev(e.value, env)[_cev(e.slice, env)]
+        try:
+            return _cev(e.value, env)[_cev(e.slice, env)]
+        except (KeyError, IndexError, TypeError):
+            raise _Stop('subscript ' + unparse(e))
+    if isinstance(e, ast.Call) and isinstance(e.func, ast.Attribute) and e.func.attr == 'get' and 1 <= len(e.args) <= 2:
+        d = _cev(e.func.value, env)
+        if isinstance(d, dict):
+            return d.get(_cev(e.args[0], env), _cev(e.args[1], env) if len(e.args) > 1 else None)
     raise _Stop(type(e).__name__)
 
 
